@@ -1,5 +1,6 @@
 (* CorrC06.v — correspondence checker for C06 (all wire formats store the same profile). *)
 From Pyro Require Export Model.Base Model.Tree Model.Varint Model.TTrie Model.TextFormats Model.Ingest Model.UrlCoding Corr.Verdict.
+From Pyro Require Model.Key.
 Open Scope string_scope.
 
 Record stored := {
@@ -31,6 +32,8 @@ Record case := {
   c_go_groups : option (list (bytes * Z) * bool);   (* convert.ParseGroups on the groups body: callbacks, err == nil *)
   c_go_lines : option (list (bytes * N) * bool);    (* convert.ParseIndividualLines on the lines body, sorted by key *)
   c_raw : option (bytes * (list (bytes * Z) * bool) * (list (bytes * N) * bool));  (* arbitrary body through both parsers *)
+  c_names : list (list N);          (* every series name this case uploaded under, as runes ([]rune(name): Go's UTF-8 decoding) *)
+  c_stored_keys : list bytes;       (* the segment keys found in the storage's index for this case's applications *)
   c_remote_rawq : option bytes;     (* r.URL.RawQuery of the request remote.uploadProfile sent *)
   c_hostile_q : option (bytes * list (bytes * bytes));   (* an arbitrary raw query string; url.ParseQuery (error dropped): (key, Get(key)) for every key, sorted *)
   c_raw_groups : option stored;     (* the arbitrary body sent to /ingest as collapsed text; c_ms = what the client meant (may be []) *)
@@ -124,10 +127,17 @@ Definition query_agrees (model got : query) : bool :=
   Nat.eqb (length model) (length got) &&
   forallb (fun kv => beqb (q_get (fst kv) got) (snd kv)) model.
 
+(* the key text storage uses for a name: Key.Normalized() of storage.ParseKey(name), UTF-8 encoded *)
+Definition expected_key (name : list N) : bytes := Key.utf8 (Key.normalized (Key.parse name)).
+
 Definition check_case (c : case) : verdict :=
   let want := from_multiset (c_ms c) in
   let m := match c_meta c with Some m => m | None => default_meta end in
   combine_verdicts (
+    (let expected := map expected_key (c_names c) in
+     [ spec (forallb (fun k => existsb (beqb k) (c_stored_keys c)) expected
+             && forallb (fun k => existsb (beqb k) expected) (c_stored_keys c))
+            "the profiles are not stored under exactly the series whose key is the normalised form of the name sent (sorted tags, trimmed, last duplicate wins)" ]) ++
     check_sent "collapsed text" FGroups want m (c_groups c) ++
     check_sent "one stack per line" FLines want m (c_lines c) ++
     check_sent "trie" FTrie want m (c_trie c) ++
